@@ -13,6 +13,12 @@ value `Sub`; two list entries denote the same Python object iff they are equal.
 `step fixed` has one switch: `fixed = true` is the code with `fix: F3-remove-data-detach`
 (`SubsetGroup._remove_data` also calls `s.delete()`), `fixed = false` is the code before that
 commit (`_remove_data` only filters `group.subsets`).  `Impl` is `step true`.
+
+The `AddData` / `RemoveData` commands and `DataCollection.insert` are modelled as coded after
+`fix: F4b-add-remove-data-undo` (props.d/C13/fixes): the command objects on the stacks carry what
+their last `do` recorded (`DCmd`), `undo` acts only if the command had an effect and re-inserts a
+removed dataset at the recorded position.  That is not a switch of `step`: C06's property does
+not depend on it (the invariant is proved for any recorded flag / position).
 -/
 namespace GlueVerif.Collection
 
